@@ -421,6 +421,36 @@ func RunC16(c *Ctx) {
 				}
 			}
 		})
+		// D2. the caller's read buffer is refilled with the document's same-length sibling (every key and string at
+		// the same offset with the same raw length, one byte of difference) and decoded by the same reader: the
+		// second result must be the sibling's tree and the first must stay what it was (seeded changes C16r10-m1,
+		// C03r10-m1: a reader that remembers a slice of the caller's input as "the escaped name I unescaped last")
+		if len(d) <= 4096 && bytes.IndexByte(d, '"') >= 0 && c.Rec.R.Cases%2 == 0 {
+			if sib, ok := siblingSameLength(d); ok {
+				c.Guarded(cs, "ValueReader.ReadValue (refilled input buffer)", func() {
+					for vi := 0; vi < 2; vi++ {
+						vr := &longVR
+						if vi == 1 {
+							vr = &rjson.ValueReader{}
+						}
+						w := append([]byte(nil), d...)
+						v1, _, e1 := vr.ReadValue(w)
+						snap1 := refmodel.CopyTree(v1)
+						copy(w, sib)
+						v2, _, e2 := vr.ReadValue(w)
+						v3, _, e3 := rjson.ReadValue(append([]byte(nil), sib...))
+						c.Rec.Evals(3)
+						c.Rec.C("same_length_siblings_through_a_refilled_buffer")
+						if (e2 == nil) != (e3 == nil) || e2 == nil && !refmodel.EqTree(v2, v3) {
+							c.Rec.Violate(cs, "a reader given the same-length sibling of the previous document at the same address returns something else than a brand-new reader given a copy", "ValueReader.ReadValue", fmt.Sprintf("err=%s val=%s", errStr(e3), show(v3)), fmt.Sprintf("err=%s val=%s (sibling %s)", errStr(e2), show(v2), h.Quote(sib)))
+						}
+						if e1 == nil && !refmodel.EqTree(v1, snap1) {
+							c.Rec.Violate(cs, "value tree changed after the caller refilled its input buffer and decoded again", "ValueReader.ReadValue", show(snap1), show(v1))
+						}
+					}
+				})
+			}
+		}
 		if wok && c.Rec.CN("string_tokens_eligible_as_samples")%3001 == 1 && c.Rec.WantSample() {
 			c.Rec.Sample(map[string]interface{}{"input": h.Quote(d), "how": cs.Describe(), "checked": "input held in a PROT_READ page through every API call; destinations of 35 (len,cap) shapes; scratch of 12 shapes; returned string/tree re-read after overwriting input and scratch"})
 		}
